@@ -288,6 +288,24 @@ def r_dlink(ctx, prog):
                 push = True
             if a[0] == 'field' and a[2] == 'next_free' and v == e:
                 nf = True
+        # the push may live in a static helper that is handed the matrix and the entry
+        for c in f.calls():
+            g = prog.callee_fn(c)
+            if g is None or not g.internal or g.unit is not f.unit:
+                continue
+            je = [j for j, a0 in enumerate(c.args) if tt.term(a0) == e]
+            if not je:
+                continue
+            gt = Terms(g, forward=True)
+            ge = ('param', je[0])
+            for i2 in g.all_insts():
+                if i2.op != 'store':
+                    continue
+                a2, v2 = gt.term(i2.ops[1]), gt.term(i2.ops[0])
+                if a2[0] == 'field' and a2[1] == ge and a2[2] == 'left' and is_field_load(v2, 'next_free'):
+                    push = True
+                if a2[0] == 'field' and a2[2] == 'next_free' and v2 == ge:
+                    nf = True
         want = set([('up', 'down', 'down'), ('down', 'up', 'up'), ('left', 'right', 'right'), ('right', 'left', 'left')])
         ctx.instance(R, want <= un and push and nf, f, '%s:unlink' % name,
                      '%s must unlink the entry from its row and its column (found %s) and push it on the free list (%s, %s)' %
@@ -592,9 +610,10 @@ def r_solver_ranges(ctx, prog):
     nrows = fldload(('param', 1), 'n_rows')
     plp, plr = role(FE, rs, 'pivot-search (store-free)', lambda l: l.depth == 1 and not has_store(FE, l))
     elp, elr = role(FE, rs, 'elimination (storing)', lambda l: l.depth == 1 and has_store(FE, l))
-    ctx.instance(R, up(plr, lambda t: t == i, nrows), plr.cmp, 'forward:pivot-search',
+    from .rules_own import _lin as _lin0
+    ctx.instance(R, up(plr, lambda t: _lin0(t) == _lin0(i), nrows), plr.cmp, 'forward:pivot-search',
                  'the pivot search of column i does not scan the rows i..n_rows-1 (found: from %s while %s %s)' % (show(plr.start), plr.pred, show(plr.bound)))
-    ctx.instance(R, up(elr, lambda t: t == ('bin', 'add', i, ('const', 1)), nrows), elr.cmp, 'forward:elimination',
+    ctx.instance(R, up(elr, lambda t: _lin0(t) == _lin0(('bin', 'add', i, ('const', 1))), nrows), elr.cmp, 'forward:elimination',
                  'the elimination of column i does not scan the rows i+1..n_rows-1 (found: from %s while %s %s)' % (show(elr.start), elr.pred, show(elr.bound)))
     # failure only when the search is exhausted: the 0-returning origin is guarded by j == rows (or j >= rows)
     okf = False
@@ -604,7 +623,8 @@ def r_solver_ranges(ctx, prog):
             n0 += 1
             src = FE.bmap[chain[0][0]] if chain else r.block
             atoms = [norm_atom(a) for a in atoms_at(FE, tt, src)]
-            okf = any(a[0] == 'cmp' and a[1] in ('eq', 'sge', 'uge') and nrows(a[3]) and a[2][0] == 'phi' for a in atoms)
+            okf = any(a[0] == 'cmp' and a[1] in ('eq', 'sge', 'uge') and nrows(a[3]) and a[2][0] == 'phi' for a in atoms) or \
+                any(a[0] == 'cmp' and a[1] in ('eq', 'sle', 'ule') and nrows(a[2]) and a[3][0] == 'phi' for a in atoms)
     ctx.need(n0 >= 1, R, 'forward elimination has no failure return')
     ctx.instance(R, n0 == 1 and okf, FE, 'forward:fail-iff-exhausted',
                  'the forward elimination reports failure on a path that is not "pivot search reached the last row without a hit"')
@@ -615,11 +635,18 @@ def r_solver_ranges(ctx, prog):
     tt, rs = ranges(BS)
     ncols = fldload(('param', 1), 'n_cols')
     olp, olr = role(BS, rs, 'row', lambda l: l.depth == 1)
-    oko = olr.step == -1 and olr.pred == 'sge' and olr.bound == ('const', 0) and olr.start[0] == 'bin' and olr.start[1] == 'sub' and \
-        ncols(olr.start[2]) and olr.start[3] == ('const', 1)
-    oko = oko or up(olr, lambda t: t == ('const', 0), ncols) and False
-    ctx.instance(R, oko, olr.cmp, 'backward:rows', 'back substitution does not visit the rows n_cols-1 down to 0')
-    ilp, ilr = role(BS, rs, 'column', lambda l: l.parent is olp)
+    from .rules_own import _lin
     iv = tt.term(_V(olr.iv))
-    ctx.instance(R, up(ilr, lambda t: t == ('bin', 'add', iv, ('const', 1)), ncols), ilr.cmp, 'backward:columns',
+
+    def lin_eq(a, b):
+        return _lin(a) == _lin(b)
+    # rows n_cols-1 .. 0: `for (i = n-1; i >= 0; i--)` visits i; `i = n; while (i > 0) { i--; ... }` visits i-1
+    formA = olr.step == -1 and olr.pred == 'sge' and olr.bound == ('const', 0) and \
+        _lin(olr.start)[1] == -1 and [k2 for k2 in _lin(olr.start)[0]] and all(ncols(k2) for k2 in _lin(olr.start)[0]) and \
+        list(_lin(olr.start)[0].values()) == [1]
+    formB = olr.step == -1 and olr.pred == 'sgt' and olr.bound == ('const', 0) and ncols(olr.start)
+    ctx.instance(R, formA or formB, olr.cmp, 'backward:rows', 'back substitution does not visit the rows n_cols-1 down to 0')
+    idx = iv if formA else ('bin', 'sub', iv, ('const', 1))
+    ilp, ilr = role(BS, rs, 'column', lambda l: l.parent is olp)
+    ctx.instance(R, up(ilr, lambda t: lin_eq(t, ('bin', 'add', idx, ('const', 1))), ncols), ilr.cmp, 'backward:columns',
                  'for row i the back substitution does not scan the columns i+1..n_cols-1')
